@@ -29,6 +29,11 @@ func (db *DB) Merge() error {
 		db.mu.Unlock()
 		return ErrDBClosed
 	}
+	// merge 临时目录与数据目录同级, 如果该目录本身是另一个数据库实例的数据目录 (存在文件锁文件), 不允许将其删除
+	if isDatabaseDir(db.mergePath()) {
+		db.mu.Unlock()
+		return ErrMergeDirIsDatabase
+	}
 
 	// 校验数据是否为空
 	if db.activeFile == nil {
@@ -188,6 +193,12 @@ func (db *DB) Merge() error {
 	return nil
 }
 
+// 判断目录是否为数据库实例的数据目录: merge 临时目录中不会存在文件锁文件
+func isDatabaseDir(dirPath string) bool {
+	_, err := os.Stat(filepath.Join(dirPath, datafile.FileLockSuffix))
+	return err == nil
+}
+
 // merge 执行时机校验
 func (db *DB) mergeCheck() error {
 	// 校验是否正在进行 merge
@@ -231,6 +242,10 @@ func (db *DB) loadMergeFiles() (uint32, error) {
 	mergePath := db.mergePath()
 	// 如果 merge 目录不存在或其他错误则执行正常加载流程
 	if _, err := os.Stat(mergePath); err != nil {
+		return 0, nil
+	}
+	// 该目录是另一个数据库实例的数据目录而非 merge 临时目录, 不能读取或修改其中的内容
+	if isDatabaseDir(mergePath) {
 		return 0, nil
 	}
 
